@@ -12,6 +12,29 @@ def corpus():
             [0x90, 1, 0xf4, 2], [0xf0, 1, 0xf0, 2, 0xf7], [0x90, 1, 0xf8, 2], [0xf7], [0xf2, 1, 0xf9, 2]]
 
 
+def long_messages(out, rng):
+    """very long messages, on the implementation only (the extracted model appends at the end of a list: quadratic): a sysex has no
+    length limit; sizes around powers of two, terminated or not, with a real-time byte inside.  Oracle: the property's statement."""
+    import mido
+    n_cases = 0
+    for n in ([65534, 65535, 65536, 70000] if out.tier == 'quick' else [4095, 4096, 65534, 65535, 65536, 65537, 70000, 131071, 131072, 262145, 1048577]):
+        body = [rng.randrange(128) for _ in range(n)]
+        k = rng.randrange(n)
+        for stream, want in (([0xf0] + body + [0xf7, 0x90, 1, 2], [[0xf0] + body + [0xf7], [0x90, 1, 2]]),
+                             ([0x80, 5, 6, 0xf0] + body[:k] + [0xf8] + body[k:] + [0xf7], [[0x80, 5, 6], [0xf8], [0xf0] + body + [0xf7]]),
+                             ([0xf0] + body, [])):
+            n_cases += 1
+            fail = pc.oracle_c04(stream)
+            if fail is None:
+                got = [m.bytes() for m in mido.parser.parse_all(stream)]
+                if got != want:
+                    fail = ('long-message', 'a stream with a sysex of %d data bytes parsed into messages of lengths %r, expected %r' % (n, [len(g) for g in got], [len(w) for w in want]))
+            if fail is not None:
+                out.failures.append((fail[0], fail[1][:600], {'component': 'long-messages', 'sysex_data_bytes': n, 'stream_head': stream[:8]}))
+    out.evaluations += n_cases
+    out.components['long messages (implementation against the statement)'] = {'cases': n_cases}
+
+
 def run(out):
     rng = random.Random(out.seed)
     maxlen = 4 if out.tier == 'quick' else 5
@@ -24,6 +47,7 @@ def run(out):
     jobs += pc.chunk_jobs(strings[::3] + streams[::4], 'tokens', pc.COMP_TOKENS)
     for tag, rec in core.pmap(pc.job, jobs):
         core.merge_into(out, rec, tag)
+    long_messages(out, rng)
     out.exhaustive = True
     out.extra['exhaustive_scope'] = 'all %d strings of length <= %d over the %d-symbol class alphabet' % (
         sum(len(pc.ALPHABET) ** n for n in range(maxlen + 1)), maxlen, len(pc.ALPHABET))
